@@ -80,18 +80,21 @@ def run_unit(A, unit, rep, tier):
             rep.fail("C05.b", norm_key("C05.b", n.func, n.stmt), f"_flush(force=False) writes the file although the object is still buffered ({mu} context active)", g.witness(g.path(g.entry, [n.id])), g.label)
     # (b) predicate = disjunction of both counters
     owner, pv = A.model.lookup(cls, "_is_buffered")
+    if pv is None:
+        raise AnalysisError(f"anchor: {cls.name} has no _is_buffered predicate")
+    pfunc = getattr(pv, "fget", None) or getattr(pv, "func", None)  # a property or a plain method
     for (o, c, want) in ((1, 0, True), (0, 1, True), (0, 0, False), (2, 3, True)):
         bb = Builder(A.model, Ctx(cls, "root", "none", counts={("T", "buffered"): o, ("C", "_buffer_context"): c}))
         inst = Val("inst", (cls,), "root", "T")
-        gg = bb.run(pv.fget, inst)
+        gg = bb.run(pfunc, inst)
         rv = gg.nodes[gg.exit]["ret"]
         bb.counts = {("T", "buffered"): o, ("C", "_buffer_context"): c, ("T", "_suspend_sync"): 0}
         t = bb.truth(rv)
         if t is want:
             rep.ok("C05.b", f"C05.b {cls.name}._is_buffered with object counter {o}, class counter {c} is {want}")
         else:
-            rep.fail("C05.b", norm_key("C05.b", pv.fget.qualname, f"obj={min(o,1)} cls={min(c,1)}"),
-                     f"{pv.fget.qualname} evaluates to {t} (expected {want}) when the object's context counter is {o} and the class's is {c}: one of the two buffering contexts is ignored", [], cls.name)
+            rep.fail("C05.b", norm_key("C05.b", pfunc.qualname, f"obj={min(o,1)} cls={min(c,1)}"),
+                     f"{pfunc.qualname} evaluates to {t} (expected {want}) when the object's context counter is {o} and the class's is {c}: one of the two buffering contexts is ignored", [], cls.name)
     # (f) _save_to_buffer leaves an entry
     for mu in ("obj",):
         b, g = A.graph(cls, "_save_to_buffer", "root", mu)
